@@ -7,16 +7,17 @@ use serde_json::{json, Value};
 const RULE: &str = "generated project trees: 1-4 tags in chains and forks of % references, 1-3 rule files per tag (2-4 uniquely named groups each) with random filters (`! {..}` one or several, `~ {..}` one or several in an order different from the file's, names in mixed case), 1-2 word files on root tags and sometimes extra word files on piped tags, optional deromaniser-only alias on a root tag; `asca seq <dir> -o -y` and `-t <tag>` must write under out/<tag>/ exactly the fold of asca::run over the configured entries (a stage that errors yields no file); cyclic variants (self-loop, 2- and 3-cycles, a cycle that does not contain the requested tag, a dangling %ref) must exit non-zero within the step budget and write nothing; `conv tag --recurse` on pipelines without extra words must export a project whose single run equals the tag's file. Non-trivial = at least two stages changed words and a filter removed or reordered a group; distinct = distinct project trees.";
 
 #[derive(Clone)]
-struct Entry { file: String, filter: Option<(char, Vec<String>)> }
+/// `spell`: how the config names the file - 0 `"rules0"`, 1 `"./rules0"`, 2 `"rules0.rsca"`
+struct Entry { file: String, filter: Option<(char, Vec<String>)>, spell: u8 }
 #[derive(Clone)]
 struct Tag { name: String, from: Option<usize>, alias: bool, words: Vec<String>, entries: Vec<Entry> }
-struct Tree { tags: Vec<Tag>, rule_files: Vec<(String, Vec<RuleGroup>)>, word_files: Vec<(String, Vec<String>)>, into: Vec<String> }
+struct Tree { tags: Vec<Tag>, rule_files: Vec<(String, Vec<RuleGroup>)>, word_files: Vec<(String, Vec<String>)>, into: Vec<String>, from: Vec<String> }
 
 fn mixed_case(r: &mut Rng, s: &str) -> String { s.chars().map(|c| if r.chance(1, 3) { c.to_uppercase().next().unwrap_or(c) } else if r.chance(1, 3) { c.to_lowercase().next().unwrap_or(c) } else { c }).collect() }
 
 fn gen_tree(r: &mut Rng) -> Tree {
     let nfiles = r.range(2, 4);
-    let rule_files: Vec<(String, Vec<RuleGroup>)> = (0..nfiles).map(|f| (format!("rules{f}"), (0..r.range(2, 4)).map(|i| rand_group(r, f * 10 + i, true)).collect())).collect();
+    let rule_files: Vec<(String, Vec<RuleGroup>)> = (0..nfiles).map(|f| (if f == 1 && r.chance(1, 3) { format!("sub/rules{f}") } else { format!("rules{f}") }, (0..r.range(2, 4)).map(|i| rand_group(r, f * 10 + i, true)).collect())).collect();
     let word_files: Vec<(String, Vec<String>)> = (0..3).map(|f| (format!("lex{f}"), (0..r.range(2, 6)).map(|_| crate::gen::rand_word(r, &crate::gen::WordCfg { tone: false, ..Default::default() })).collect())).collect();
     let ntags = r.range(1, 4);
     let mut tags = Vec::new();
@@ -32,38 +33,53 @@ fn gen_tree(r: &mut Rng) -> Tree {
                 3 => { let mut n = names.clone(); r.shuffle(&mut n); n.truncate(r.range(2, names.len())); n.reverse(); Some(('~', n.iter().map(|x| mixed_case(r, x)).collect())) }
                 _ => None,
             };
-            Entry { file: rule_files[fi].0.clone(), filter }
+            Entry { file: rule_files[fi].0.clone(), filter, spell: [0u8, 0, 0, 1, 2][r.below(5)] }
         }).collect();
-        tags.push(Tag { name: format!("tag{t}"), from, alias: from.is_none() && r.chance(1, 3), words, entries });
+        tags.push(Tag { name: format!("tag{t}"), from, alias: r.chance(1, 3), words, entries });
     }
-    Tree { tags, rule_files, word_files, into: vec!["Ж > ʒ".to_string(), "ш > ʃ".to_string()] }
+    // the alias file always has deromanisers; half of the time also romanisers that invert them (what a stage prints, the next reads back)
+    let from = if r.chance(1, 2) { vec!["ʒ > Ж".to_string(), "ʃ > ш".to_string()] } else { vec![] };
+    Tree { tags, rule_files, word_files, into: vec!["Ж > ʒ".to_string(), "ш > ʃ".to_string()], from }
 }
 
 fn config_text(tree: &Tree, r: &mut Rng, from_override: &[(usize, String)]) -> String {
+    // lexical variety the config grammar allows: comments anywhere between items, lists over several lines, trailing commas in
+    // lists and filters, `$alias` before or after `%tag`, CRLF line ends
+    let comment = |r: &mut Rng| if r.chance(1, 6) { format!("# {}\n", ["a comment", "@not a tag", "todo: \"x\" ~ {y}", ""][r.below(4)]) } else { String::new() };
+    let list = |r: &mut Rng, items: Vec<String>| -> String { let sep = if r.chance(1, 5) { ",\n        " } else { ", " }; format!("{}{}", items.join(sep), if r.chance(1, 4) { "," } else { "" }) };
     let mut s = String::from("# generated project\n");
     for (ti, t) in tree.tags.iter().enumerate() {
+        s += &comment(r);
         s += &format!("@{}", t.name);
         let from_name = from_override.iter().find(|o| o.0 == ti).map(|o| o.1.clone()).or(t.from.map(|f| tree.tags[f].name.clone()));
+        let alias_first = r.chance(1, 3);
+        if t.alias && alias_first { s += " $roman" }
         if let Some(f) = from_name { s += &format!(" %{f}") }
-        if t.alias { s += " $roman" }
-        if !t.words.is_empty() { s += &format!(" [{}]", t.words.iter().map(|w| format!("\"{w}\"")).collect::<Vec<_>>().join(", ")) }
+        if t.alias && !alias_first { s += " $roman" }
+        if !t.words.is_empty() { s += &format!(" [{}]", list(r, t.words.iter().map(|w| format!("\"{w}\"")).collect())) }
         s += ":";
         let nl = r.chance(1, 2);
         for (i, e) in t.entries.iter().enumerate() {
             s += if nl { "\n    " } else { " " };
-            s += &format!("\"{}\"", e.file);
-            if let Some((k, names)) = &e.filter { s += &format!(" {k} {{{}}}", names.iter().map(|n| format!("\"{n}\"")).collect::<Vec<_>>().join(", ")); }
+            if nl { let c = comment(r); if !c.is_empty() { s += &c; s += "    "; } }
+            s += &match e.spell { 1 => format!("\"./{}\"", e.file), 2 => format!("\"{}.rsca\"", e.file), _ => format!("\"{}\"", e.file) };
+            if let Some((k, names)) = &e.filter { s += &format!(" {k} {{{}}}", list(r, names.iter().map(|n| format!("\"{n}\"")).collect())); }
             if i + 1 < t.entries.len() || r.chance(1, 3) { s += "," }
         }
         s += "\n\n";
     }
+    if r.chance(1, 4) { s += "# the end" }
+    if r.chance(1, 5) { s = s.replace('\n', "\r\n") }
     s
 }
 
 fn write_tree(dir: &std::path::Path, tree: &Tree, r: &mut Rng, conf: &str) {
+    std::fs::create_dir_all(dir.join("sub")).ok();
     for (name, groups) in &tree.rule_files { std::fs::write(dir.join(format!("{name}.rsca")), rsca_text(groups, r)).ok(); }
     for (name, words) in &tree.word_files { std::fs::write(dir.join(format!("{name}.wsca")), words.join("\n")).ok(); }
-    std::fs::write(dir.join("roman.alias"), format!("@into\n{}\n", tree.into.iter().map(|x| format!("    {x}")).collect::<Vec<_>>().join("\n"))).ok();
+    let sec = |tag: &str, v: &[String]| format!("{tag}\n{}\n", v.iter().map(|x| format!("    {x}")).collect::<Vec<_>>().join("\n"));
+    let (a, b) = (sec("@into", &tree.into), if tree.from.is_empty() { String::new() } else { sec("@from", &tree.from) });
+    std::fs::write(dir.join("roman.alias"), if r.chance(1, 2) { format!("{a}{b}") } else { format!("{b}{a}") }).ok();
     std::fs::write(dir.join("project.asca"), conf).ok();
 }
 
@@ -78,7 +94,10 @@ fn filtered(tree: &Tree, e: &Entry) -> Vec<RuleGroup> {
 
 thread_local! { static ABORTED: std::cell::RefCell<Option<String>> = const { std::cell::RefCell::new(None) }; }
 
-/// the model: final words of a tag (None if any stage errors), number of stages that changed words
+thread_local! { static STEPS: std::cell::RefCell<std::collections::HashMap<usize, Vec<Vec<String>>>> = std::cell::RefCell::new(std::collections::HashMap::new()); }
+
+/// the model: final words of a tag (None if any stage errors), number of stages that changed words; the words after every entry
+/// of the tag are left in STEPS (what `-i` writes)
 fn model(tree: &Tree, ti: usize, memo: &mut Vec<Option<Option<(Vec<String>, usize)>>>) -> Option<(Vec<String>, usize)> {
     if let Some(m) = &memo[ti] { return m.clone() }
     let t = &tree.tags[ti];
@@ -86,12 +105,15 @@ fn model(tree: &Tree, ti: usize, memo: &mut Vec<Option<Option<(Vec<String>, usiz
         let mut changed = 0;
         let mut words: Vec<String> = match t.from { Some(p) => { let (w, c) = model(tree, p, memo)?; changed += c; w } None => vec![] };
         for wf in &t.words { if !words.is_empty() { words.push(String::new()) } words.extend(tree.word_files.iter().find(|f| f.0 == *wf).unwrap().1.clone()); }
-        let into: Vec<String> = if t.alias { tree.into.clone() } else { vec![] };
+        let (into, from): (Vec<String>, Vec<String>) = if t.alias { (tree.into.clone(), tree.from.clone()) } else { (vec![], vec![]) };
+        let mut steps: Vec<Vec<String>> = Vec::new();
         for e in &t.entries {
-            let next = match run_pub(&filtered(tree, e), &words, &into, &[]) { Ok(n) => n, Err(Applied::Abort(sig)) => { ABORTED.with(|a| *a.borrow_mut() = Some(sig)); return None } Err(_) => return None };
+            let next = match run_pub(&filtered(tree, e), &words, &into, &from) { Ok(n) => n, Err(Applied::Abort(sig)) => { ABORTED.with(|a| *a.borrow_mut() = Some(sig)); return None } Err(_) => return None };
             if next != words { changed += 1 }
             words = next;
+            steps.push(words.clone());
         }
+        STEPS.with(|m| { m.borrow_mut().insert(ti, steps); });
         Some((words, changed))
     })();
     memo[ti] = Some(res.clone());
@@ -139,6 +161,9 @@ fn one(r: &mut Rng, rep: &mut Report, i: u64, shard: usize, seed: u64) {
             match &exp[ti] {
                 Some((words, _)) => {
                     if got.len() != 1 { rep.violation("seq:number-of-output-files".into(), || json!({"case": files(), "tag": t.name, "observed": got.iter().map(|g| g.0.clone()).collect::<Vec<_>>(), "stdout": ran.stdout.chars().take(1200).collect::<String>()})); ok = false; break }
+                    // (the file is named after the last entry, with a suffix describing its filter: the name is the program's business, but it starts with the entry's file name)
+                    let stem = t.entries.last().map(|e| e.file.rsplit('/').next().unwrap_or("").to_string()).unwrap_or_default();
+                    if !got[0].0.starts_with(&stem) || !got[0].0.ends_with(".wsca") { rep.violation("seq:output-file-name".into(), || json!({"case": files(), "tag": t.name, "expected": format!("{stem}*.wsca"), "observed": got[0].0})); ok = false; break }
                     if got[0].1 != words.join("\n") {
                         let what = if t.entries.iter().any(|e| e.filter.as_ref().map(|f| f.0 == '~' && f.1.len() > 1).unwrap_or(false)) { ":with-ordered-select-filter" } else if t.from.is_some() { ":piped" } else { "" };
                         rep.violation(format!("seq:output-differs-from-the-fold{what}"), || json!({"case": files(), "tag": t.name, "expected": words, "observed": got[0].1.split('\n').collect::<Vec<_>>()})); ok = false; break }
@@ -158,9 +183,24 @@ fn one(r: &mut Rng, rep: &mut Report, i: u64, shard: usize, seed: u64) {
             let ran = run_asca(&d2, &["seq", ".", "-t", &tree.tags[ti].name, "-o", "-y"]);
             let got = out_files(&d2, &tree.tags[ti].name);
             match &exp[ti] { Some((w, _)) => if ran.code != Some(0) || got.len() != 1 || got[0].1 != w.join("\n") { rep.violation("seq-t:single-tag-differs".into(), || json!({"case": files(), "tag": tree.tags[ti].name, "expected": w, "observed": got, "code": ran.code})); }, None => {} }
+            // ---- the same tag with -i: one numbered file per entry, holding the words after that entry
+            if exp[ti].is_some() && r.chance(1, 2) {
+                let d4 = scratch("c20", shard, i + 3_000_000);
+                write_tree(&d4, &tree, r, &conf);
+                let ran = run_asca(&d4, &["seq", ".", "-t", &tree.tags[ti].name, "-o", "-y", "-i"]);
+                let got = out_files(&d4, &tree.tags[ti].name);
+                let steps = STEPS.with(|m| m.borrow().get(&ti).cloned().unwrap_or_default());
+                let want: Vec<(String, String)> = tree.tags[ti].entries.iter().zip(&steps).enumerate().map(|(k, (e, w))| (format!("{}_{}", k + 1, e.file.rsplit('/').next().unwrap_or("")), w.join("\n"))).collect();
+                // one file per entry, named <n>_<entry file>[_<filter>].wsca
+                let same = got.len() == want.len() && want.iter().all(|(stem, content)| got.iter().filter(|g| g.0.starts_with(stem.as_str()) && g.0.ends_with(".wsca") && g.1 == *content).count() >= 1);
+                if ran.code != Some(0) || !same { rep.violation("seq-i:intermediate-files-differ".into(), || json!({"case": files(), "tag": tree.tags[ti].name, "expected": want, "observed": got, "code": ran.code})); } else { rep.obs("intermediate_file_sets_ok", 1); }
+                cleanup(&d4);
+            }
             // ---- conv tag --recurse
             let t = &tree.tags[ti];
-            let chain_ok = { let mut k = Some(ti); let mut good = true; while let Some(x) = k { if tree.tags[x].from.is_some() && !tree.tags[x].words.is_empty() { good = false } k = tree.tags[x].from; } good };
+            // (the export is ONE run with the root's aliases: comparable only when no word files join mid-pipeline and the stages had no
+            //  romanisers or aliases of their own)
+            let chain_ok = { let mut k = Some(ti); let mut good = true; while let Some(x) = k { if tree.tags[x].from.is_some() && (!tree.tags[x].words.is_empty() || tree.tags[x].alias) { good = false } if tree.tags[x].alias && !tree.from.is_empty() { good = false } k = tree.tags[x].from; } good };
             if t.from.is_some() && chain_ok && exp[ti].is_some() {
                 let ran = run_asca(&d2, &["conv", "tag", &t.name, "-p", ".", "-r", "-o", "export.json"]);
                 let ex: Option<Value> = std::fs::read_to_string(d2.join("export.json")).ok().and_then(|x| serde_json::from_str(&x).ok());
